@@ -234,6 +234,20 @@ pub fn component_states() -> Vec<State> {
         }));
         out.push(State { label: "add complexType with unprefixed base/type/ref under a default namespace (same local names in the imported namespace)".into(), depth: 1, set: s });
     }
+    // the XML Schema namespace as the default namespace of every file (<schema xmlns="…/XMLSchema">,
+    // <element>, type="string"): the same documents in a common other spelling
+    {
+        let types = type_alphabet();
+        let mut s = seed();
+        s.xs_is_default_namespace = true;
+        out.push(State { label: "add spelling of seed with the XML Schema namespace as default namespace".into(), depth: 1, set: s.clone() });
+        // with members of every kind on the holder
+        for (k, p) in member_productions(&types, true).into_iter().enumerate().filter(|(k, _)| k % 7 == 0) {
+            let mut t = s.clone();
+            apply_member(&mut t, &p, &types, 1);
+            out.push(State { label: format!("add spelling with the XML Schema namespace as default namespace ; {} (#{k})", member_label(&p, &types)), depth: 2, set: t });
+        }
+    }
     for (file, ns, tag) in [(0usize, NS_A, "A"), (1usize, NS_B, "B")] {
         let comps: Vec<(String, Comp)> = vec![
             (format!("add complexType in {tag}"), complex(&format!("Extra{tag}"), vec![el("X", TypeRef::b("int"))])),
@@ -251,6 +265,47 @@ pub fn component_states() -> Vec<State> {
             out.push(State { label, depth: 1, set: s });
         }
     }
+    out
+}
+
+/// Distinct XML names whose Rust spellings coincide inside ONE struct or ONE module: an element and
+/// an attribute of one name (separate symbol spaces: common), two elements that differ in case or
+/// separator only, two types that differ in separator only. Judged by C01 (compile).
+pub fn spelling_collision_states() -> Vec<State> {
+    let mut out = vec![];
+    let mk = |label: &str, f: &dyn Fn(&mut SchemaSet)| {
+        let mut s = seed();
+        f(&mut s);
+        State { label: format!("add spelling-collision: {label}"), depth: 1, set: s }
+    };
+    out.push(mk("an element and an attribute of one name in one type", &|s| {
+        let h = holder_mut(s);
+        h.seq = Some(Seq::of(vec![el("code", TypeRef::b("string")), el("Other", TypeRef::b("int"))]));
+        h.attrs.push(Attr { name: "code".into(), ty: TypeRef::b("string"), required: false, value_constraint: None });
+    }));
+    out.push(mk("an element and an attribute whose names differ in case only", &|s| {
+        let h = holder_mut(s);
+        h.seq = Some(Seq::of(vec![el("Type", TypeRef::b("string"))]));
+        h.attrs.push(Attr { name: "type".into(), ty: TypeRef::b("string"), required: true, value_constraint: None });
+    }));
+    out.push(mk("[yaserde-visitor-names] two elements that differ in separator only", &|s| {
+        holder_mut(s).seq = Some(Seq::of(vec![el("user-name", TypeRef::b("string")), el("user_name", TypeRef::b("string")), el("user.name", TypeRef::b("int"))]));
+    }));
+    out.push(mk("[yaserde-visitor-names] two elements that differ in case only", &|s| {
+        holder_mut(s).seq = Some(Seq::of(vec![el("userName", TypeRef::b("string")), el("UserName", TypeRef::b("int"))]));
+    }));
+    out.push(mk("an own element named like an inherited attribute", &|s| {
+        s.files[0].comps.push(Comp::Complex(ComplexType { name: "BaseWithAttr".into(), seq: Some(Seq::of(vec![el("Payload", TypeRef::b("string"))])), attrs: vec![Attr { name: "itemId".into(), ty: TypeRef::b("string"), required: false, value_constraint: None }], ..Default::default() }));
+        s.files[0].comps.push(Comp::Complex(ComplexType { name: "DerivedWithElem".into(), base: Some(QName::new(NS_A, "BaseWithAttr")), seq: Some(Seq::of(vec![el("item_id", TypeRef::b("int"))])), ..Default::default() }));
+    }));
+    out.push(mk("[yaserde-visitor-names] an own element named like an inherited one in another spelling", &|s| {
+        s.files[0].comps.push(complex("BaseWithId", vec![el("itemId", TypeRef::b("string"))]));
+        s.files[0].comps.push(Comp::Complex(ComplexType { name: "DerivedWithId".into(), base: Some(QName::new(NS_A, "BaseWithId")), seq: Some(Seq::of(vec![el("item_id", TypeRef::b("int"))])), ..Default::default() }));
+    }));
+    out.push(mk("[type-names] two complex types that differ in separator only", &|s| {
+        s.files[0].comps.push(complex("user-name", vec![el("A", TypeRef::b("string"))]));
+        s.files[0].comps.push(complex("UserName", vec![el("B", TypeRef::b("string"))]));
+    }));
     out
 }
 
